@@ -741,6 +741,48 @@ theorem scoreCandidate_spec (E : Env α β) (sel : α → Option (Peak α)) (ser
   simp only [scoreCandidate, finish, h1, h2, h3, h4, h5, h6, h7, h8]
   cases annotate <;> simp
 
+/-- the two complementary filters of a list partition it -/
+theorem length_filter_split {γ : Type} (l : List γ) (p : γ → Bool) :
+    (l.filter p).length + (l.filter (fun x => !p x)).length = l.length := by
+  induction l with
+  | nil => rfl
+  | cons x t ih =>
+    cases h : p x <;> simp [h] <;> omega
+
+/-- **C04.matched_partition** — the two counters `matched_b` / `matched_y` PARTITION the matched set: for every
+environment, peak selector, ion-kind set, peptide length, fragment-charge limit and score type their sum is
+exactly the number of visited theoretical (ion, charge) pairs for which `select_most_intense_peak` returns a
+peak — "a theoretical fragment counts as matched if and only if some peak lies within the tolerance" at the
+level of the reported `matched_peaks` (with `select_spec`: `sel … = none` iff no peak lies in the window) — so
+no fragment is counted twice, under both termini, or dropped, and `matched_peaks` never exceeds the number of
+theoretical fragments. -/
+theorem matched_partition (E : Env α β) (sel : α → Option (Peak α)) (series : List (Kind × List α))
+    (n mfc : Nat) (openms annotate : Bool) :
+    let s := scoreCandidate E sel series n mfc openms annotate
+    s.matchedB + s.matchedY = (specMatches E sel (fragCharges series mfc)).length ∧
+    s.matchedB + s.matchedY = ((fragCharges series mfc).filter fun f => (sel (mzOf E f)).isSome).length ∧
+    s.matchedB + s.matchedY ≤ (fragCharges series mfc).length := by
+  have h := scoreCandidate_spec E sel series n mfc openms annotate
+  simp only at h
+  obtain ⟨h1, h2, -⟩ := h
+  have hsum : (scoreCandidate E sel series n mfc openms annotate).matchedB +
+      (scoreCandidate E sel series n mfc openms annotate).matchedY =
+      (specMatches E sel (fragCharges series mfc)).length := by
+    rw [h1, h2]
+    simp only [specVals]
+    exact length_filter_split _ _
+  have hlen : (specMatches E sel (fragCharges series mfc)).length =
+      ((fragCharges series mfc).filter fun f => (sel (mzOf E f)).isSome).length := by
+    unfold specMatches
+    generalize fragCharges series mfc = l
+    induction l with
+    | nil => rfl
+    | cons f t ih =>
+      cases hs : sel (mzOf E f) <;> simp [hs, ih]
+  refine ⟨hsum, hsum.trans hlen, ?_⟩
+  rw [hsum, hlen]
+  exact List.length_filter_le _ _
+
 /-- **C04.hyperscore_def** — for EVERY environment (every `ln`, every arithmetic) the hyperscore
 `score_candidate` stores (score type `SageHyperScore`) is the pinned function
 `ln((Ib+1)·(Iy+1)) + lnfact(nb) + lnfact(ny)` of the naive counts `nb, ny` and intensity sums `Ib, Iy` of the
@@ -792,6 +834,9 @@ example :
     s.hyperscore = ((14 + 1) * (3 + 1) + lnfact exEnv 2 + lnfact exEnv 1) ∧
     (s.ann.map (·.map (fun a => (a.kind, a.charge, a.ordinal, a.intensity)))) =
       some [(.b, 1, 1, 5), (.b, 1, 2, 9), (.y, 1, 1, 3)] := by decide +kernel
+
+/-- non-vacuity of `matched_partition`: 3 of the 6 theoretical fragments of the toy peptide have a peak -/
+example : ((fragCharges exSeries 2).filter fun f => (exSel (mzOf exEnv f)).isSome).length = 3 := by decide +kernel
 
 /-- **C04.select_spec** — `select_most_intense_peak` on an explicit window `[lo, hi]`, for an arbitrary linear
 order of masses and intensities, every peak list sorted by mass (any length, duplicates allowed) whose
